@@ -426,7 +426,17 @@ fn consume_expr<'i>(
                             Rule::range_operator => 0,
                             Rule::integer => {
                                 pairs.next().unwrap(); // ..
-                                pair_start.as_str().parse().unwrap()
+                                match pair_start.as_str().parse() {
+                                    Ok(start) => start,
+                                    Err(_) => {
+                                        return Err(vec![Error::new_from_span(
+                                            ErrorVariant::CustomError {
+                                                message: "number cannot overflow i32".to_owned(),
+                                            },
+                                            pair_start.as_span(),
+                                        )]);
+                                    }
+                                }
                             }
                             _ => unreachable!("peek start"),
                         };
@@ -435,7 +445,17 @@ fn consume_expr<'i>(
                             Rule::closing_brack => None,
                             Rule::integer => {
                                 pairs.next().unwrap(); // }
-                                Some(pair_end.as_str().parse().unwrap())
+                                match pair_end.as_str().parse() {
+                                    Ok(end) => Some(end),
+                                    Err(_) => {
+                                        return Err(vec![Error::new_from_span(
+                                            ErrorVariant::CustomError {
+                                                message: "number cannot overflow i32".to_owned(),
+                                            },
+                                            pair_end.as_span(),
+                                        )]);
+                                    }
+                                }
                             }
                             _ => unreachable!("peek end"),
                         };
